@@ -87,6 +87,16 @@ def routing_case(draw, sub, focus="filters"):
     if draw(st.integers(0, 4)) == 0:
         o["length1"] = draw(st.sampled_from([5, 10, 15, -6]))
     r1, r2 = draw(scen.reads(ad1, ad2, paired, fastq=fastq, n_max=8, min_reads=2))
+    if (ad1 or ad2) and not pair_adapters and draw(st.integers(0, 5)) == 0:
+        # --revcomp: some reads (pairs) arrive the other way round; every later step works on the chosen orientation
+        o["revcomp"] = True
+        for k in range(len(r1)):
+            if draw(st.booleans()):
+                if paired:
+                    r1[k], r2[k] = [r1[k][0], r2[k][1], r2[k][2]], [r2[k][0], r1[k][1], r1[k][2]]
+                else:
+                    rr = model.revcomp_record(tuple(r1[k]))
+                    r1[k] = [r1[k][0], rr[1], rr[2]]
     sc = {"sub": sub, "paired": paired, "fastq": fastq, "r1": r1, "r2": r2, "ad1": ad1, "ad2": ad2, "glob": glob,
           "o": o, "f": {}, "out": {}}
     # --- compute the fully modified reads to place thresholds on the values that occur
